@@ -213,30 +213,28 @@ class StateMachine(object):
 	def parse_chunked_body(self) -> bool:
 		if self.state['trailer']:
 			return self.parse_trailers()
-		if self.line_end not in self.buffer:
-			# chunk size info not received yet
-			return NOT_RECEIVED_YET
+		while True:
+			if self.line_end not in self.buffer:
+				# chunk size info not received yet
+				return NOT_RECEIVED_YET
 
-		chunk_size, rest_chunk = self.__parse_chunk_size()
+			chunk_size, rest_chunk = self.__parse_chunk_size()
 
-		if len(rest_chunk) < (len(self.line_end) + chunk_size):
-			# chunk not received completely
-			return NOT_RECEIVED_YET
+			if len(rest_chunk) < (len(self.line_end) + chunk_size):
+				# chunk not received completely
+				return NOT_RECEIVED_YET
 
-		body_part, rest_chunk = rest_chunk[:chunk_size], rest_chunk[chunk_size:]
-		self.message.body.parse(bytes(body_part))
-		self.buffer = rest_chunk
+			body_part, rest_chunk = rest_chunk[:chunk_size], rest_chunk[chunk_size:]
+			self.message.body.parse(bytes(body_part))
+			self.buffer = rest_chunk
 
-		if chunk_size == 0:
-			self.state['trailer'] = True
-			return self.parse_trailers()
+			if chunk_size == 0:
+				self.state['trailer'] = True
+				return self.parse_trailers()
 
-		if not rest_chunk.startswith(self.line_end):
-			raise InvalidBody(_(u'Invalid chunk terminator: %r'), rest_chunk[:2].decode('ISO8859-1'))
-		self.buffer = self.buffer[len(self.line_end):]
-
-		# next chunk
-		return self.parse_chunked_body()
+			if not rest_chunk.startswith(self.line_end):
+				raise InvalidBody(_(u'Invalid chunk terminator: %r'), rest_chunk[:2].decode('ISO8859-1'))
+			self.buffer = self.buffer[len(self.line_end):]
 
 	def __parse_chunk_size(self):
 		line, rest_chunk = self.buffer.split(self.line_end, 1)
